@@ -13,7 +13,7 @@
    enter C03_global_error_partial as the hypothesis on e and are measured numerically by the check. *)
 From Coq Require Import Reals ZArith QArith Qcanon List Lia Bool.
 From Coquelicot Require Import Coquelicot.
-From RV Require Import Proofs.VacuityA Base.Num Base.Vec Mech.Intg Spec.SpecDyn Inst Proofs.QcInst Proofs.ConvProofs Proofs.ConvReal Proofs.DerProofs Proofs.EulerConv Proofs.EulerConvVec Proofs.RK4Conv Mech.Colloc Proofs.CollocConv.
+From RV Require Import Proofs.VacuityA Base.Num Base.Vec Mech.Intg Spec.SpecDyn Inst Proofs.QcInst Proofs.ConvProofs Proofs.ConvReal Proofs.DerProofs Proofs.EulerConv Proofs.EulerConvVec Proofs.RK4Conv Mech.Colloc Proofs.CollocConv Proofs.CollocOrder2.
 Import ListNotations.
 
 Theorem C03_rk4_order_conditions :
@@ -334,6 +334,33 @@ Proof. exact (dc_radau1_integral_converges F g n x t0 T L Lg K D M Y Yc Qs). Qed
 Print Assumptions C03_dc_radau1_integral_converges.
 
 
+(* legendre collocation of degree 1 (implicit midpoint) at its CLASSICAL order 2d = 2, any dimension, max norm *)
+Theorem C03_dc_legendre1_converges_order2 (F : list R -> R -> list R) (n : nat) (x : nat -> R -> R) (t0 T L K2 K3 : R) (M : nat) (Y Yc : nat -> list R) :
+  0 < T -> 0 < L -> 0 <= K2 -> 0 <= K3 -> (0 < M)%nat ->
+  let h := T / INR M in
+  h * L <= 1 / 2 ->
+  (forall j, (j <= M)%nat -> length (Y j) = n) ->
+  (forall j, (j < M)%nat -> length (Yc j) = n) ->
+  Y 0%nat = xvec n x t0 ->
+  (* collocation row of step j, root time = step start + h * tau_0, tau = [1/2] *)
+  (forall j, (j < M)%nat ->
+     @vdivs R ROps (@wsum R ROps (@col R ROps (@coeff_C R ROps [1 / 2]) 0) [Y j; Yc j]) h
+     = F (Yc j) (t0 + INR j * h + h * (1 / 2))) ->
+  (* continuity row of step j *)
+  (forall j, (j < M)%nat -> @wsum R ROps (@coeff_D R ROps [1 / 2]) [Y j; Yc j] = Y (S j)) ->
+  (forall i t, (i < n)%nat -> t0 <= t <= t0 + T -> is_derive (x i) t (nth i (F (xvec n x t) t) 0)) ->
+  (forall i t k, (i < n)%nat -> t0 <= t <= t0 + T -> (k <= 3)%nat -> ex_derive_n (x i) k t) ->
+  (forall i t, (i < n)%nat -> t0 <= t <= t0 + T -> Rabs (Derive_n (x i) 2 t) <= K2) ->
+  (forall i t, (i < n)%nat -> t0 <= t <= t0 + T -> Rabs (Derive_n (x i) 3 t) <= K3) ->
+  (forall i t X Y', (i < n)%nat -> t0 <= t <= t0 + T -> length X = n -> length Y' = n ->
+     Rabs (nth i (F X t) 0 - nth i (F Y' t) 0) <= L * dist_max n X Y') ->
+  forall j i, (j <= M)%nat -> (i < n)%nat ->
+    Rabs (nth i (Y j) 0 - x i (t0 + INR j * h))
+    <= ((3 / 4 * L * K2 + 7 / 12 * K3) * ((exp (T * (2 * L)) - 1) / (2 * L))) * h ^ 2.
+Proof. exact (dc_legendre1_converges_order2 F n x t0 T L K2 K3 M Y Yc). Qed.
+Print Assumptions C03_dc_legendre1_converges_order2.
+
+
 Theorem C03_dc_degree1_coefficients :
   forall (F : Type) (OF : Ops F), FieldLaws OF -> (@o2 F OF) <> o0 ->
   (coeff_C [o1 : F] = [[oopp o1]; [o1]] /\ coeff_D [o1 : F] = [o0; o1] /\ coeff_B [o1 : F] = [o1]) /\
@@ -342,7 +369,7 @@ Proof. intros F OF Fl H2. split; [exact (coeff_radau1 Fl)|exact (coeff_legendre1
 Print Assumptions C03_dc_degree1_coefficients.
 
 Example C03_dc_nonvacuous : True /\ True.
-Proof. pose proof dc_radau1_decay as _. pose proof dc_legendre1_decay as _. split; exact I. Qed.
+Proof. pose proof dc_radau1_decay as _. pose proof dc_legendre1_decay as _. pose proof dc_legendre1_decay_order2 as _. split; exact I. Qed.
 
 (* further witnesses that the hypotheses of this file's theorems are met by realistic inputs (N = 1, M = 1, no controls,
    t0 = 0, concrete grids / collocation points): proved in Proofs/VacuityA.v by the vacuity audit *)
